@@ -65,14 +65,16 @@ ChunkOK(mode, c, n) ==
   CASE mode = "any"   -> TRUE
     [] mode = "size"  -> n > 0 /\ n <= PerSep
     [] mode = "whole" -> WholeChars("gsm7u", c)
+    [] mode = "all"   -> n > 0 /\ n <= PerSep /\ WholeChars("gsm7u", c)
 
 RECURSIVE Tiles(_, _, _, _, _)
 Tiles(s, parts, i, pos, mode) ==
   IF i > Len(parts) THEN pos = Len(s)
   ELSE \E n \in SeptetCounts(Len(parts[i]) - 6) :
          /\ pos + n <= Len(s)
-         /\ Pack(SubSeq(s, pos + 1, pos + n)) = Payload(parts, i)
-         /\ ChunkOK(mode, SubSeq(s, pos + 1, pos + n), n)
+         /\ LET chunk == SubSeq(s, pos + 1, pos + n) IN
+              /\ Pack(chunk) = Payload(parts, i)
+              /\ ChunkOK(mode, chunk, n)
          /\ Tiles(s, parts, i + 1, pos + n, mode)
 
 PreservesPacked(parts, s) == Tiles(s, parts, 1, 0, "any")
